@@ -17,6 +17,9 @@ type scanner struct {
 	negative bool
 }
 
+// maxExponent is the largest absolute value of an exponent NewNumber accepts.
+const maxExponent = 1000000
+
 func newScanner() *scanner {
 	s := &scanner{}
 	s.stateFn = s.stateOnSearchStart
@@ -72,6 +75,11 @@ func (s *scanner) setExp(value bytes.Bytes) error {
 	exp, err := value.SubLow(s.expBegin).ParseInt()
 	if err != nil {
 		return err
+	}
+	// The exponent is applied by materialising zeros: an unbounded one
+	// means gigabytes of them (or a length that overflows).
+	if exp > maxExponent || exp < -maxExponent {
+		return errs.ErrIncorrectExponentValue.F()
 	}
 	// example with negative exp: 12.34E-1 = 1.234; exp = -1; intLen = 2 + (-1) = 1
 	// example with positive exp: 12.34E+1 = 123.4; exp =  1; intLen = 2 + 1    = 3
